@@ -190,6 +190,7 @@ static void* va_malloc_(size_t size) {
   }
   void* p = back_alloc(size);
   if (!p) abort();
+  if (size <= ((size_t)1 << 20)) memset(p, 0xD5, size); /* fresh memory is never zero: nothing may rely on what malloc happens to return */
   long id = ++va_serial;
   va_put(p, size, id);
   va.mallocs++;
@@ -224,6 +225,7 @@ static void* va_realloc_(void* old, size_t size) {
   }
   void* p = back_alloc(size);
   if (!p) abort();
+  if (size <= ((size_t)1 << 20)) memset(p, 0xD5, size);
   long id = ++va_serial;
   if (e) {
     memcpy(p, old, e->size < size ? e->size : size);
